@@ -577,6 +577,10 @@ def run(report, p):
     if rd is None:
         raise AnalysisError("manifest reader not found")
     apps = [n for n in walk_no_nested(rd.node) if isinstance(n, ast.Call) and isinstance(n.func, ast.Attribute) and n.func.attr == "append" and norm(n.args[0]) == "element.text" and "pattern" in norm(_enclosing_if(n))]
+    if not apps:
+        elsewhere = [f_ for f_ in p.funcs.values() if f_.module is rd.module and f_ is not rd and any(isinstance(n, ast.Call) and isinstance(n.func, ast.Attribute) and n.func.attr == "append" and n.args and norm(n.args[0]) == "element.text" for n in walk_no_nested(f_.node))]
+        if elsewhere:
+            raise AnalysisError(f"manifest reader: <pattern> texts are collected in {elsewhere[0].qual}, not in the reader's event loop; reader structure not modelled")
     r6.instance(rd, apps[0] if apps else rd.node, "reader pattern append")
     ok = len(apps) == 1
     if ok:
@@ -596,8 +600,14 @@ def run(report, p):
                     continue
                 r7.instance(t, n.ast, f"for {norm(n.ast.target)} in {norm(n.ast.iter)}")
                 sink_ids = {g.node_for(s).id for s in sinks}
+                from .common import resolved_path_conditions
+
                 for kind, conds, trail in loop_iteration_paths(g, n):
                     passed = any(x.id in sink_ids for x in trail)
+                    # names bound on the path (the result variable of an inlined `is ignored` helper) are put back; contradictory paths are no paths
+                    conds, feasible = resolved_path_conditions(g, trail)
+                    if not feasible:
+                        continue
                     if kind == "back" and not passed:
                         took_match = any("match_file" in norm(c) and l == "T" for c, l in conds if not isinstance(c, (ast.For, ast.While)))
                         r7.check(took_match, t, trail[-2].ast if len(trail) > 1 else n.ast, "a listed name is dropped from the traversal although it did not match the ignore patterns", witness=g.fmt_path(trail), construct=f"drop: {[ (norm(c)[:50], l) for c, l in conds if not isinstance(c, (ast.For, ast.While))]}")
